@@ -160,4 +160,90 @@ theorem irun_inv (threshold : Nat) (side : H → V → Bool) (choose : List Nat 
     obtain ⟨s2, e2, h2, hs2⟩ := ih s1 h1
     exact ⟨s2, by simp only [irun, e1, e2], h2, by rw [hs2, hs1]; rfl⟩
 
+
+/-- the collection never holds more than `threshold` documents during the run -/
+def SmallRun (threshold : Nat) (side : H → V → Bool) (choose : List Nat → Option H) : IState V → List (IOp V) → Prop
+  | _, [] => True
+  | s, op :: ops =>
+    match istep threshold side choose s op with
+    | .ok s' => s'.live.length ≤ threshold ∧ SmallRun threshold side choose s' ops
+    | _ => True
+
+theorem insert_leaf_small (threshold : Nat) (side : H → V → Bool) (choose : List Nat → Option H) (store : Nat → Option V)
+    (id : Nat) (v : V) (ids : List Nat) (t' : Tree) (h : insert threshold side choose store id v (.leaf ids) = .ok t')
+    (hsmall : t'.ids.length ≤ threshold) (hid : store id = some v) (hst : ∀ i ∈ ids, (store i).isSome = true) :
+    t' = .leaf (ids ++ [id]) := by
+  obtain ⟨t'', e, p, _⟩ := insert_inv threshold side choose store id v (.leaf ids) hid hst trivial
+  rw [h] at e; cases e
+  have hlen : t'.ids.length = (ids ++ [id]).length := p.length_eq
+  unfold insert at h
+  simp only at h
+  rw [if_neg (by omega)] at h
+  cases h; rfl
+
+theorem istep_leaf (threshold : Nat) (side : H → V → Bool) (choose : List Nat → Option H) (s : IState V)
+    (h : IInv side s) (ids : List Nat) (hleaf : s.tree = .leaf ids) (op : IOp V) (s' : IState V)
+    (hs : istep threshold side choose s op = .ok s') (hsmall : s'.live.length ≤ threshold) :
+    ∃ ids', s'.tree = .leaf ids' := by
+  obtain ⟨s1, e1, h1, _⟩ := istep_inv threshold side choose s h op
+  rw [hs] at e1; cases e1
+  have hlen : s'.tree.ids.length ≤ threshold := by rw [h1.inv.perm.length_eq]; exact hsmall
+  cases op with
+  | touch id => simp only [istep] at hs; cases hs; exact ⟨ids, hleaf⟩
+  | remove id =>
+    simp only [istep] at hs
+    cases hst : s.store id with
+    | none => rw [hst] at hs; cases hs; exact ⟨ids, hleaf⟩
+    | some v => rw [hst] at hs; cases hs; exact ⟨ids.erase id, by simp [hleaf, remove]⟩
+  | add id v =>
+    simp only [istep] at hs
+    have key : ∀ (ids0 : List Nat), (∀ i ∈ ids0, (setv s.store id (some v) i).isSome = true) →
+        ∀ t', insert threshold side choose (setv s.store id (some v)) id v (.leaf ids0) = .ok t' → t'.ids.length ≤ threshold →
+        ∃ ids', t' = .leaf ids' := by
+      intro ids0 hst t' ht hl
+      exact ⟨_, insert_leaf_small threshold side choose _ id v ids0 t' ht hl (by simp [setv]) hst⟩
+    have hstore : ∀ i ∈ s.live, (setv s.store id (some v) i).isSome = true := by
+      intro i hi
+      by_cases e : i = id
+      · simp [setv, e]
+      · simp only [setv, e, ↓reduceIte]; exact h.inv.stored i hi
+    have hids : ∀ i ∈ ids, i ∈ s.live := by
+      intro i hi
+      have := h.inv.perm
+      rw [hleaf] at this
+      exact this.mem_iff.mp hi
+    cases hst : s.store id with
+    | none =>
+      simp only [hst, hleaf] at hs
+      cases hi : insert threshold side choose (setv s.store id (some v)) id v (.leaf ids) with
+      | ok t' =>
+        rw [hi] at hs; cases hs
+        exact key ids (fun i hm => hstore i (hids i hm)) t' hi hlen
+      | err m => rw [hi] at hs; cases hs
+      | panic m => rw [hi] at hs; cases hs
+    | some vOld =>
+      simp only [hst, hleaf, remove] at hs
+      cases hi : insert threshold side choose (setv s.store id (some v)) id v (.leaf (ids.erase id)) with
+      | ok t' =>
+        rw [hi] at hs; cases hs
+        exact key (ids.erase id) (fun i hm => hstore i (hids i (List.mem_of_mem_erase hm))) t' hi hlen
+      | err m => rw [hi] at hs; cases hs
+      | panic m => rw [hi] at hs; cases hs
+
+/-- **a collection that never holds more than `threshold` documents keeps a single leaf** -/
+theorem small_run_single_leaf (threshold : Nat) (side : H → V → Bool) (choose : List Nat → Option H) (ops : List (IOp V))
+    (s : IState V) (h : IInv side s) (ids : List Nat) (hleaf : s.tree = .leaf ids)
+    (hsm : SmallRun threshold side choose s ops) :
+    ∃ s' ids', irun threshold side choose s ops = .ok s' ∧ IInv side s' ∧ s'.tree = .leaf ids' ∧ ids'.Perm s'.live := by
+  induction ops generalizing s ids with
+  | nil =>
+    refine ⟨s, ids, rfl, h, hleaf, ?_⟩
+    have := h.inv.perm; rw [hleaf] at this; exact this
+  | cons op ops ih =>
+    obtain ⟨s1, e1, h1, _⟩ := istep_inv threshold side choose s h op
+    simp only [SmallRun, e1] at hsm
+    obtain ⟨ids1, hl1⟩ := istep_leaf threshold side choose s h ids hleaf op s1 e1 hsm.1
+    obtain ⟨s2, ids2, e2, h2, hl2, hp2⟩ := ih s1 h1 ids1 hl1 hsm.2
+    exact ⟨s2, ids2, by simp only [irun, e1, e2], h2, hl2, hp2⟩
+
 end Syzgy.Lsh
